@@ -499,3 +499,16 @@ CLAIMS["C19"]["text"] += (
     "which it resolves, the deadline is not polled again afterwards, same outcome, scripts, handed wakers and event trace, "
     "including the point where the deadline's output is dropped (the translator's rule for temporaries, trusted). Hypotheses: "
     "deadline = child 0, inner = child 1, children answer like a future / a stream without panicking, not completed.")
+
+# ---- the no_std / alloc-only flavour of the families that hold a waker table
+_DIRF = (" The same ties are proved for the no_std / alloc-only builds ({thm}): without the std feature the same family source is "
+         "compiled against src/utils/wakers/{{vec,array}}/no_std.rs (no flags, every child is handed the caller's own waker); "
+         "tools/rs2lean.py produces that flavour from the translated source (FcGen/KSrc*D.lean: the std flavour's text with the "
+         "functions translated from no_std.rs) and the translated poll / PinnedDrop refine Eng.poll / Eng.drop of the model in "
+         "direct mode.")
+CLAIMS["C04"]["text"] += _DIRF.format(thm="FcProps/KTieJoinVD.lean, KTieJoinAD.lean: poll_tie, drop_tie, new_wf")
+CLAIMS["C05"]["text"] += _DIRF.format(thm="FcProps/KTieTryJoinVD.lean, KTieTryJoinAD.lean: poll_tie, drop_tie, drop_failed_tie, new_wf")
+CLAIMS["C08"]["text"] += _DIRF.format(thm="FcProps/KTieMergeVD.lean, KTieMergeAD.lean: poll_tie, poll_tie_free, new_wf")
+CLAIMS["C17"]["text"] += _DIRF.format(thm="FcProps/KTieMergeVD.lean, KTieMergeAD.lean")
+CLAIMS["C09"]["text"] += _DIRF.format(thm="FcProps/KTieZipVD.lean, KTieZipAD.lean: poll_tie, drop_tie, new_wf")
+CLAIMS["C02"]["text"] += " The destructor ties also hold in the no_std flavour (TieJoinVD/AD.drop_tie, TieTryJoinVD/AD.drop_tie / drop_failed_tie, TieZipVD/AD.drop_tie)."
